@@ -267,3 +267,124 @@ variants('BinaryOpUGen._optimize_to_muladd', '+', ('times', 'plus', 'unit', 'num
 variants('BinaryOpUGen._optimize_addneg', '+', ('neg', 'plus', 'unit', 'num'), {'neg'})
 variants('BinaryOpUGen._optimize_sub', '-', ('neg', 'plus', 'unit', 'num'), {'neg'},
          returns_replacement=False, extra_events=('_replace_ugen', 'optimize-again'))
+
+
+# ---- dead-code elimination: UGen._perform_dead_code_elimination ---------------------------------
+# A unit nobody reads is removed, after it has been taken out of the reader set of each of its
+# inputs; an input is re-optimised only while it is still the unit registered at its index
+# (an earlier step may have replaced it).  A unit that has readers is left completely alone.
+from vf.pyvc.spec import Loop
+
+
+def dce_inputs(eng, name):
+    n = z3.Int('self.inputs.len')
+
+    def get(eng_, i, st_):
+        tag = str(z3.simplify(i)).replace(' ', '')
+        isu = z3.Bool('is_ugen[%s]' % tag)
+        return V('ref', cls='InputUnit', oid='input[%s]' % tag,
+                 extra={'isinstance': {c: (isu if c in ('UGen', 'SynthObject') else z3.BoolVal(False))
+                                       for c in ALL_CLASSES}, 'index': i})
+    return V('seq', extra={'len': n, 'facts': [n >= 0], 'get': get})
+
+
+def readers_kind(eng, name):
+    oid = name.rsplit('.', 1)[0]
+    return V('ref', cls='ReaderSet', oid=oid + '._descendants',
+             extra={'truth': z3.Bool('has_readers(%s)' % oid), 'owner': oid})
+
+
+def dce_getattr(eng, obj, name, st, node):
+    if obj.k == 'ref' and obj.cls == 'ReaderSet' and name == 'discard':
+        def discard(eng, args, kwargs, st, node, _o=obj):
+            st.trace.append(('discard', _o.extra['owner'], tuple(args)))
+            return [(st, NONE)]
+        return [(st, V('func', py=('spec', discard)))]
+    if obj.k == 'obj' and obj.oid == 'self._synthdef':
+        if name == '_remove_ugen':
+            def rm(eng, args, kwargs, st, node):
+                st.trace.append(('_remove_ugen', tuple(args)))
+                return [(st, NONE)]
+            return [(st, V('func', py=('spec', rm)))]
+        if name == '_children':
+            return [(st, V('obj', oid='children'))]
+    if obj.k == 'ref' and obj.cls == 'InputUnit' and name == '_optimize_graph':
+        def og(eng, args, kwargs, st, node, _o=obj):
+            st.trace.append(('optimize', _o))
+            return [(st, NONE)]
+        return [(st, V('func', py=('spec', og)))]
+    return None
+
+
+def dce_getitem(eng, obj, idx, st, node):
+    if obj.k == 'obj' and obj.oid == 'children':
+        return [(st, V('obj', oid='child-at', extra={'index': idx}))]
+    return None
+
+
+def dce_compare(eng, op, a, b, st, node):
+    if isinstance(op, (ast.Is, ast.IsNot)):
+        for p, q in ((a, b), (b, a)):
+            if p.k == 'obj' and p.oid == 'child-at' and q.k == 'ref' and q.cls == 'InputUnit':
+                ok = p.extra['index'].k == 'int' and z3.eq(p.extra['index'].z, z3.Int(str(q.oid) + '._synth_index'))
+                if not ok:
+                    raise Unsupported(node, 'children[...] looked up at another index than the input\'s own')
+                r = z3.Bool('still_registered(%s)' % q.oid)
+                st.trace.append(('checked-registered', q))
+                return z3.Not(r) if isinstance(op, ast.IsNot) else r
+    return None
+
+
+def dce_since(trace):
+    idx = -1
+    for i, e in enumerate(trace):
+        if e[0] == 'loop-head':
+            idx = i
+    return trace[idx + 1:] if idx >= 0 else None
+
+
+def dce_pass(c, L):
+    ev = dce_since(c.trace)
+    if not ev:
+        return z3.BoolVal(True)
+    ev = [e for e in ev if e[0] in ('discard', 'optimize', '_remove_ugen', 'checked-registered')]
+    item = c.pre.self.v('inputs').extra['get'](c._eng, L.i - 1, c.st)
+    oid = item.oid
+    isu = item.extra['isinstance']['UGen']
+    has = z3.Bool('has_readers(%s)' % oid)
+    still = z3.Bool('still_registered(%s)' % oid)
+    dis = [e for e in ev if e[0] == 'discard']
+    opt = [e for e in ev if e[0] == 'optimize']
+    if [e for e in ev if e[0] == '_remove_ugen'] or len(dis) > 1 or len(opt) > 1:
+        return z3.BoolVal(False)
+    ok = True
+    for e in dis:      # only THIS input's reader set, and only `self` is taken out of it
+        ok = ok and e[1] == oid and len(e[2]) == 1 and e[2][0].k == 'ref' and e[2][0].oid == 'self'
+    for e in opt:      # only THIS input is re-optimised, after the discard
+        ok = ok and e[1].oid == oid and bool(dis) and ev.index(dis[0]) < ev.index(e)
+    return z3.And(z3.BoolVal(bool(ok)),
+                  z3.BoolVal(bool(dis)) == z3.And(isu, has),                 # discarded iff a unit that has readers
+                  z3.BoolVal(bool(opt)) == z3.And(isu, has, still))          # re-optimised iff still registered
+
+
+def dce_post(c):
+    t = [e for e in c.trace if e[0] in ('discard', 'optimize', '_remove_ugen', 'loop-head')]
+    has = z3.Bool('has_readers(self)')
+    r = c.result
+    rm = [e for e in t if e[0] == '_remove_ugen']
+    if not [e for e in t if e[0] == 'loop-head']:
+        return z3.And(has, z3.Not(r), z3.BoolVal(not t))                      # has readers: untouched
+    ok = (len(rm) == 1 and t[-1] is rm[0] and len(rm[0][1]) == 1 and rm[0][1][0].k == 'ref'
+          and rm[0][1][0].oid == 'self')                                      # removed last, itself, once
+    return z3.And(z3.Not(has), r, z3.BoolVal(bool(ok)))
+
+
+contract(F, 'SynthObject._perform_dead_code_elimination', props=('C01',), params={'self': 'self'},
+         ensures=[('unread-unit-removed-after-leaving-its-inputs-reader-sets;read-unit-untouched', dce_post)],
+         loops={0: Loop(inv=dce_pass, kinds={'input': (lambda eng, name: V('obj', oid='havoc-input'))})},
+         fields={'SynthObject': {'_descendants': readers_kind, 'inputs': dce_inputs, '_synthdef': 'obj'},
+                 'InputUnit': {'_descendants': readers_kind, '_synth_index': 'int'}, 'ReaderSet': {}},
+         hooks={'getattr': dce_getattr, 'getitem': dce_getitem, 'compare': dce_compare},
+         class_modules={'SynthObject': F, 'InputUnit': F, 'ReaderSet': F}, native=False,
+         note='reader sets are opaque objects with a ghost truth value; what _optimize_graph of an input does '
+              'is that unit\'s own contract')
